@@ -116,6 +116,11 @@ func (h *Handler) Handle(req, resp dhcpv6.DHCPv6) (dhcpv6.DHCPv6, bool) {
 		return nil, true
 	}
 
+	// The whole message is handled under the lock, so that concurrent messages
+	// are handled one at a time (and the lock is released whatever happens)
+	h.Lock()
+	defer h.Unlock()
+
 	// Each request IA_PD requires an IA_PD response
 	for _, iapd := range msg.Options.IAPD() {
 		if err != nil {
@@ -142,7 +147,6 @@ func (h *Handler) Handle(req, resp dhcpv6.DHCPv6) (dhcpv6.DHCPv6, bool) {
 
 		// A possible simple optimization here would be to be able to lock single map values
 		// individually instead of the whole map, since we lock for some amount of time
-		h.Lock()
 		knownLeases := h.Records[recordKey(client)]
 		// Bitmap to track which leases are already given in this exchange
 		givenOut := bitset.New(uint(len(knownLeases)))
@@ -238,7 +242,6 @@ func (h *Handler) Handle(req, resp dhcpv6.DHCPv6) (dhcpv6.DHCPv6, bool) {
 		if newLeases != nil {
 			h.Records[recordKey(client)] = newLeases
 		}
-		h.Unlock()
 
 		if len(iapdResp.Options.Options) == 0 {
 			log.Debugf("No valid prefix to return for IAID %x", iapd.IaId)
